@@ -29,6 +29,13 @@ CHECKS = {
          "and every negotiated parameter must lie in both raw policies per an independent model using the IANA table; failed handshakes must fail with an alert on at least one side and never one-sidedly complete.",
          "own credential type enabled in own settings (caller precondition); settings.versions never set directly; private _send/_recv_record_limit attributes read for the record-limit agreement",
          "DESIGN.md §4 C03"),
+ "C04": ("fault_enumeration",
+         "fault enumeration with an on-path MITM (byte positions of every record x XOR masks, record drop/duplicate/swap, semantic hello rewrites) compared with the honest run of the same seed",
+         "12 base scenarios (version-range negotiation with RSA/ECDSA, DHE, SRP, anonymous, client auth + ALPN + SNI, HelloRetryRequest, session-id / ticket / PSK resumption) are each attacked with one action: XOR at byte positions of any record of any flight "
+         "(thorough: every position x 3 masks on plaintext flights), record drop/duplicate/swap, 9 ClientHello and 8 ServerHello rewrites (version lowering, removal of versions/suites/groups/signature algorithms/extensions, sentinel edits, SCSV). Never may both endpoints complete "
+         "with different view vectors or with negotiated parameters different from the honest run; a downgraded ServerHello carrying the sentinel must stop the client at once; FALLBACK_SCSV is checked over all 25 version pairs.",
+         "attacker without keys; protected records are only flipped/dropped/duplicated/swapped",
+         "DESIGN.md §4 C04"),
  "C05": ("fault_enumeration",
          "fault enumeration site x corruption through a well-keyed deviant peer (real endpoint, wrapped send methods, substituted keys, re-signed proofs) with positive controls",
          "Every proof-of-possession site (ServerKeyExchange signature for RSA/ECDSA/EdDSA/DSA in TLS 1.0-1.2, client CertificateVerify, TLS 1.3 server/client CertificateVerify, post-handshake authentication, Finished, SRP proof, external PSK binder, Checker) "
